@@ -94,10 +94,10 @@ pub fn adaptor_case(ctx: &mut Ctx, fl: Flavour, offers: &[usize], dgrams: &[Vec<
 }
 
 #[derive(Clone, Debug)]
-pub enum AOp { Rd(usize), Fl, Wr(Vec<u8>) }
-fn aop_tok(o: &AOp) -> String { match o { AOp::Rd(n) => n.to_string(), AOp::Fl => "f".into(), AOp::Wr(b) => format!("w{}", hex(b)) } }
+pub enum AOp { Rd(usize), Fl, Wr(Vec<u8>), Idle }
+fn aop_tok(o: &AOp) -> String { match o { AOp::Rd(n) => n.to_string(), AOp::Fl => "f".into(), AOp::Wr(b) => format!("w{}", hex(b)), AOp::Idle => "t".into() } }
 fn aop_parse(t: &str) -> Option<AOp> {
-    if t == "f" { Some(AOp::Fl) } else if let Some(h) = t.strip_prefix('w') { Some(AOp::Wr(unhex(h))) } else { t.parse().ok().map(AOp::Rd) }
+    if t == "f" { Some(AOp::Fl) } else if t == "t" { Some(AOp::Idle) } else if let Some(h) = t.strip_prefix('w') { Some(AOp::Wr(unhex(h))) } else { t.parse().ok().map(AOp::Rd) }
 }
 
 /// adaptor level, both halves: reads with chosen slice sizes interleaved with flushes and writes on the same adaptor.
@@ -112,6 +112,7 @@ pub fn ops_case(ctx: &mut Ctx, fl: Flavour, ops: &[AOp], dgrams: &[Vec<u8>]) {
             let (a, peer) = pair();
             a.set_read_timeout(Some(Duration::from_millis(150))).unwrap();
             peer.set_read_timeout(Some(Duration::from_millis(30))).unwrap();
+            let ctl = a.try_clone().unwrap(); // same socket: its receive time-out is shortened for the idle reads
             let mut s = insim::net::blocking_impl::UdpStream::from(a);
             let (mut out, mut sent, mut served, mut avail) = (vec![], 0usize, 0usize, 0usize);
             for o in ops2 {
@@ -131,6 +132,14 @@ pub fn ops_case(ctx: &mut Ctx, fl: Flavour, ops: &[AOp], dgrams: &[Vec<u8>]) {
                     },
                     AOp::Fl => { let _ = s.flush(); },
                     AOp::Wr(b) => { let _ = s.write(&b); },
+                    // a read while nothing is buffered and nothing has been sent: the receive call times out; whatever it
+                    // does return instead is recorded
+                    AOp::Idle => if served == avail {
+                        ctl.set_read_timeout(Some(Duration::from_millis(15))).unwrap();
+                        let mut buf = vec![0u8; 64];
+                        if let Ok(k) = s.read(&mut buf) { served += k; out.push(buf[..k].to_vec()); }
+                        ctl.set_read_timeout(Some(Duration::from_millis(150))).unwrap();
+                    },
                 }
             }
             let mut replies = vec![];
@@ -164,6 +173,10 @@ pub fn ops_case(ctx: &mut Ctx, fl: Flavour, ops: &[AOp], dgrams: &[Vec<u8>]) {
                         },
                         AOp::Fl => { let _ = AsyncWriteExt::flush(&mut s).await; },
                         AOp::Wr(b) => { let _ = AsyncWriteExt::write(&mut s, &b).await; },
+                        AOp::Idle => if served == avail {
+                            let mut buf = vec![0u8; 64];
+                            if let Ok(Ok(k)) = tokio::time::timeout(Duration::from_millis(15), AsyncReadExt::read(&mut s, &mut buf)).await { served += k; out.push(buf[..k].to_vec()); }
+                        },
                     }
                 }
                 let mut replies = vec![];
@@ -208,6 +221,8 @@ pub fn session_case(ctx: &mut Ctx, fl: Flavour, compressed: bool, dgrams: &[Vec<
             peer.set_read_timeout(Some(Duration::from_millis(50))).unwrap();
             let mut f = insim::net::blocking_impl::Framed::new(Box::new(insim::net::blocking_impl::UdpStream::from(a)), Codec::new(mode_of(compressed)));
             let mut out = vec![];
+            let mut replies = vec![];
+            let mut buf = [0u8; 2048];
             for (i, d) in dg2.iter().enumerate() {
                 peer.send(d).unwrap();
                 for _ in 0..per[i] {
@@ -216,9 +231,12 @@ pub fn session_case(ctx: &mut Ctx, fl: Flavour, compressed: bool, dgrams: &[Vec<
                         Err(e) => out.push(err_token(&e, false)),
                     }
                 }
+                // collect the replies as they arrive: the peer's socket buffer is finite and the operating system
+                // drops datagrams that do not fit, which would be the harness's loss, not the library's
+                peer.set_nonblocking(true).unwrap();
+                while let Ok(n) = peer.recv(&mut buf) { replies.push(buf[..n].to_vec()); }
+                peer.set_nonblocking(false).unwrap();
             }
-            let mut replies = vec![];
-            let mut buf = [0u8; 2048];
             while let Ok(n) = peer.recv(&mut buf) { replies.push(buf[..n].to_vec()); }
             (out, replies)
         })),
@@ -231,6 +249,8 @@ pub fn session_case(ctx: &mut Ctx, fl: Flavour, compressed: bool, dgrams: &[Vec<
                 let s = insim::net::tokio_impl::UdpStream::from(tokio::net::UdpSocket::from_std(a).unwrap());
                 let mut f = insim::net::tokio_impl::Framed::new(Box::new(s), Codec::new(mode_of(compressed)));
                 let mut out = vec![];
+                let mut replies = vec![];
+                let mut buf = [0u8; 2048];
                 'outer: for (i, d) in dg2.iter().enumerate() {
                     peer.send(d).unwrap();
                     for _ in 0..per[i] {
@@ -240,9 +260,10 @@ pub fn session_case(ctx: &mut Ctx, fl: Flavour, compressed: bool, dgrams: &[Vec<
                             Err(_) => { out.push("stalled".into()); break 'outer; },
                         }
                     }
+                    peer.set_nonblocking(true).unwrap();
+                    while let Ok(n) = peer.recv(&mut buf) { replies.push(buf[..n].to_vec()); }
+                    peer.set_nonblocking(false).unwrap();
                 }
-                let mut replies = vec![];
-                let mut buf = [0u8; 2048];
                 while let Ok(n) = peer.recv(&mut buf) { replies.push(buf[..n].to_vec()); }
                 (out, replies)
             })
@@ -379,11 +400,23 @@ pub fn run(ctx: &mut Ctx) {
             let dg: Vec<Vec<u8>> = (0..k).map(|_| { let n = *ctx.rng.pick(&[4usize, 8, 12, 132, 600, 1020]); (0..n).map(|_| ctx.rng.byte()).collect() }).collect();
             let style = ctx.rng.below(3);
             let ops: Vec<AOp> = (0..300).map(|_| match ctx.rng.below(6) {
-                0 => AOp::Fl,
+                0 => if ctx.rng.chance(1, 4) { AOp::Idle } else { AOp::Fl },
                 1 => { let n = 1 + ctx.rng.below(12) as usize; AOp::Wr((0..n).map(|_| ctx.rng.byte()).collect()) },
                 _ => AOp::Rd(match style { 0 => 1 + ctx.rng.below(8) as usize, 1 => 1 + ctx.rng.below(300) as usize, _ => 1 + ctx.rng.below(2000) as usize }),
             }).collect();
             ops_case(ctx, fl, &ops, &dg);
+        }
+    }
+    // a receive attempt that fails (time-out: nothing to receive) before, between and after datagrams served in pieces
+    for fl in [Flavour::Blocking, Flavour::Tokio] {
+        for dlen in [4usize, 13] {
+            for o1 in [1usize, 3, 64] {
+                let d: Vec<u8> = (0..dlen as u8).map(|i| i.wrapping_mul(5).wrapping_add(9)).collect();
+                let d2: Vec<u8> = (0..6u8).map(|i| 50 + i).collect();
+                let mut ops = vec![AOp::Idle];
+                for i in 0..10 { ops.push(AOp::Rd(if i % 2 == 0 { o1 } else { 64 })); ops.push(AOp::Idle); }
+                ops_case(ctx, fl, &ops, &[d, d2]);
+            }
         }
     }
     ctx.exhaustive_domains.push("adaptor with flushes/writes between reads: datagram lengths {4,8,13} x first offer 1..5 x {nothing, flush, write, write+flush} between every two reads, both adaptors".into());
